@@ -44,14 +44,14 @@ TRUSTED = [
 
 def gen_inputs(ctx):
     g = symgen.Gen(ctx.rng)
-    der = L.derived_workspaces(g, ctx.rng, 260 if ctx.quick else 1800, 2, 3, 5 if ctx.quick else 8)
+    der = L.derived_workspaces(g, ctx.rng, 260 if ctx.quick else 1000, 2, 3, 5 if ctx.quick else 8)
     wss, kinds = [], []
     for kind, files, root in der:
         wss.append(L.mk_ws(files, root, ctx.rng, hover=False, completion=False, hints="sample"))
         kinds.append(kind)
     # texts that end inside a literal / comment / stray token with a non-ASCII last character, and character-level cuts
     g2 = symgen.Gen(ctx.rng)
-    for _ in range(120 if ctx.quick else 1500):
+    for _ in range(120 if ctx.quick else 700):
         files, root = g2.workspace()
         rt = [t for p, t in files if p == root][0]
         others = [f for f in files if f[0] != root]
